@@ -409,7 +409,7 @@ RULES = [("accessors", rule_accessors), ("revocation-table", rule_revocation_tab
 # (C04 pairing rules), also after the make/unmake probes of move generation
 RULES += engine.premise_rules("c04", ["piece-pair", "turn-pair", "ep-pair", "castle-pair", "castle-revert"])
 # the bookkeeping reads the move's flags: the move record carries what the generator put into it
-RULES += engine.premise_rules("c01", ["ply-builder", "capture-src"])
+RULES += engine.premise_rules("c01", ["ply-builder", "capture-src", "leaf-accessors"])
 # "from the standard start or any valid FEN": the first history record (clock, rights) is what the FEN said
 RULES += engine.premise_rules("c07", ["fields", "history", "build"])
 
